@@ -357,13 +357,33 @@ def print_inj(name, d):
     return '%s(%s) :- %s;' % (name, ', '.join(d[1]), pb(d[2]))
 
 
+def print_make(mk):
+    """Functor application statement.  mk = (new_name, functor, args); args is a tuple
+    of (argument_predicate, ('pred', name) | ('const', literal_value))."""
+    parts = []
+    for a, v in mk[2]:
+        parts.append('%s: %s' % (a, v[1] if v[0] == 'pred' else pe(('lit', v[1]))))
+    return '%s := %s(%s);' % (mk[0], mk[1], ', '.join(parts))
+
+
 def print_program(prog, engine_line='@Engine("sqlite");'):
     lines = [engine_line] if engine_line else []
     lines.extend(prog.get('ann', []))
     for name, d in prog.get('inj', {}).items():
         lines.append(print_inj(name, d))
-    for r in prog['rules']:
+    # optional functor applications prog['make'] (absent => output unchanged);
+    # prog['make_at'][i] = index of the rule before which make i is printed
+    makes = list(prog.get('make') or ())
+    at = list(prog.get('make_at') or ())
+    at += [len(prog['rules'])] * (len(makes) - len(at))
+    for i, r in enumerate(prog['rules']):
+        for j, mk in enumerate(makes):
+            if at[j] == i:
+                lines.append(print_make(mk))
         lines.append(print_rule(r))
+    for j, mk in enumerate(makes):
+        if at[j] >= len(prog['rules']) or at[j] < 0:
+            lines.append(print_make(mk))
     return '\n'.join(lines) + '\n'
 
 
